@@ -53,7 +53,7 @@ Opt-in generic rewrites (fn options; additive, used by unit odsxml; each applica
         placeholders only (no `{{`, `}}`, no `{:..}` / `{name}` specs) are expanded into their documented meaning (std::fmt: "the
         literal pieces and the `Display` output of each argument are written in order; arguments are evaluated once, left to right,
         before anything is written"; `impl fmt::Write for String` appends and never fails, so the `.unwrap()` of the result is a no-op):
-            write!(&mut S, "p0{}p1{}p2", a1, a2).unwrap()  ->  { let __w0 = &(a1); let __w1 = &(a2); verif_fmt_lit(&mut S, "p0");
+            write!(&mut S, "p0{}p1{}p2", a1, a2).unwrap()  ->   (also `write!(buf, ..)` with `buf: &mut String`)  { let __w0 = &(a1); let __w1 = &(a2); verif_fmt_lit(&mut S, "p0");
                                                                   verif_fmt_arg(&mut S, __w0); verif_fmt_lit(&mut S, "p1"); verif_fmt_arg(&mut S, __w1); verif_fmt_lit(&mut S, "p2"); }
             format!("p0{}p1", a1)                          ->  { let __w0 = &(a1); let mut __f13 = String::new(); ...; __f13 }
         The argument expressions and the literal pieces stay verbatim (empty pieces are dropped).  The unit declares
@@ -748,7 +748,7 @@ def render_fn(fs, out, unit, log):
             is_write = m.group(1) == "write"
             if is_write:
                 mu = re.match(r"\.\s*unwrap\s*\(\s*\)", text[pe:])
-                if not mu or len(parts) < 2 or not re.fullmatch(r"&mut [A-Za-z_]\w*", parts[0]):
+                if not mu or len(parts) < 2 or not re.fullmatch(r"(?:&mut )?[A-Za-z_]\w*", parts[0]):  # `&mut s` or a `&mut String` variable `buf`
                     continue
                 dest, fmt, args, en = parts[0], parts[1], parts[2:], pe + mu.end()
             else:
